@@ -58,6 +58,11 @@ class System:
             class Res:
                 data = a.cached_property(getter)
         Res.data.__set_name__(Res, "data")
+        if (susp + len(cfg["scripts"])) % 2:
+            # instances of a subclass that merely inherits the property (looked up through the MRO)
+            class Sub(Res):
+                pass
+            Res = Sub
         self.inst = Res()
         self.other = Res()
         self.results = [[] for _ in cfg["scripts"]]
